@@ -4,9 +4,14 @@
    Together with reset_block_insertable (repaired guard: after do_all_failed every block is requestable again from every
    connected peer) and finished_piece_completes (a piece whose blocks are finished and whose bytes are the original ones
    is verified, marked and announced) this gives the measure argument: under a scheduler that is fair to the enabled
-   events of an honest peer, the number of unfinished blocks of a listed piece decreases to 0 and the piece completes. *)
+   events of an honest peer, the number of unfinished blocks of a listed piece decreases to 0 and the piece completes.
+   Second part of the file: that argument as theorems. honest_block_step_frame (only the one block changes),
+   honest_blocks_finish (induction over the unfinished blocks of the piece), honest_piece_completes (one accepted trace of
+   3 * unfinished blocks + 4 events from any reachable state, ending with the piece completed, announced, and "done"
+   enabled if it was the last one) and honest_piece_completes_after_reset (the [requestable] hypothesis discharged after
+   BlockList::do_all_failed with the repaired Block::insert). *)
 From Coq Require Import NArith List Bool Lia.
-From LTV.C01 Require Import ParamsGen Model Proofs ProofsInv ProofsHash.
+From LTV.C01 Require Import ParamsGen Model Proofs ProofsB ProofsGeo ProofsInv ProofsHash.
 Import ListNotations.
 Open Scope N_scope.
 
@@ -49,14 +54,19 @@ Variable repaired : bool.
 Notation accept := (accept H expected npieces psize repaired).
 Notation run := (run H expected npieces psize repaired).
 
-Theorem honest_block_step : forall s i b x p d,
+(* the same with the frame: only block (i, b) changes, and connections / hash queue / listed pieces do not *)
+Theorem honest_block_step_frame : forall s i b x p d,
   pmark s = None -> find_block s i b = Some x -> b_off x / bs = b ->
   In p (conns s) -> get_cur s p = None ->
   b_leader x = None -> b_trans x = [] -> memN p (b_queued x) = false -> ins_refused repaired p x = false ->
   lenN d = b_len x -> 0 < b_len x ->
   exists s', run s [EIns p i b; EPiece p i (b_off x) (b_len x) true; EData p d] = Some s' /\
              (exists x', find_block s' i b = Some x' /\ finished x' = true /\ b_queued x' = [] /\ b_leader x' = Some p) /\
-             piece s' i = splice (piece s i) (N.to_nat (b_off x)) d /\ get_cur s' p = None /\ pmark s' = None.
+             piece s' i = splice (piece s i) (N.to_nat (b_off x)) d /\ get_cur s' p = None /\ pmark s' = None /\
+             (exists G, (forall y, key (G y) = key y) /\ (forall y, b_len (G y) = b_len y) /\ finished (G x) = true /\
+                        blocks s' = upd_block (blocks s) i b G) /\
+             conns s' = conns s /\ hashing s' = hashing s /\ attempts s' = attempts s /\ completed s' = completed s /\
+             done s' = done s /\ haves s' = haves s.
 Proof.
   intros s i b x p d PM Fx Eb Hp Hc L Tr Hq Hr Ld Lpos.
   assert (Mp : memN p (conns s) = true) by (apply memN_In; exact Hp).
@@ -104,7 +114,7 @@ Proof.
   { unfold after_data. rewrite F3, Ft3. cbn [t_pos done_t b_len f3 f2 f1 set_trans set_queued]. 
     replace (0 + n =? b_len x) with true by (symmetry; apply N.eqb_eq; unfold n; lia).
     unfold is_leader_t. cbn [t_state tstate_eqb]. reflexivity. }
-  exists s4. split; [simpl; rewrite A1, A2, A3, E4; reflexivity|]. split; [|split; [|split]].
+  exists s4. split; [simpl; rewrite A1, A2, A3, E4; reflexivity|]. split; [|split; [|split; [|split; [|split; [|split; [|split; [|split; [|split; [|split]]]]]]]]].
   - exists (complete_block x3). split; [|split; [|split]].
     + unfold find_block, s4. cbn [blocks with_blocks with_curs]. apply find_upd_block; [intro; reflexivity | exact F3].
     + unfold finished. cbn [b_leader complete_block x3 f3 f2 f1 set_trans set_queued b_trans b_len]. rewrite Tr.
@@ -116,6 +126,310 @@ Proof.
     apply (nth_upd_nth_same (store s) (N.to_nat i) (fun pc : list N => splice pc (N.to_nat (b_off x)) d) []). reflexivity.
   - eapply get_cur_del_cur. reflexivity.
   - exact PM.
+  - exists (fun y => complete_block (f3 (f2 (f1 y)))). split; [intro; reflexivity|]. split; [intro; reflexivity|]. split.
+    + unfold finished. cbn [b_leader complete_block f3 f2 f1 set_trans set_queued b_trans b_len]. rewrite Tr.
+      cbn [app set_pos upd_tr map t_peer new]. rewrite N.eqb_refl. cbn [filter is_leader_t t_state tstate_eqb find_tr find t_peer t_pos].
+      rewrite N.eqb_refl. cbn [t_pos]. apply N.eqb_eq. unfold n. lia.
+    + unfold s4, s3, s2, s1. cbn [blocks with_blocks with_curs with_store].
+      rewrite !upd_block_twice by (intro; reflexivity). reflexivity.
+  - reflexivity.
+  - reflexivity.
+  - reflexivity.
+  - reflexivity.
+  - reflexivity.
+  - reflexivity.
 Qed.
 
+Theorem honest_block_step : forall s i b x p d,
+  pmark s = None -> find_block s i b = Some x -> b_off x / bs = b ->
+  In p (conns s) -> get_cur s p = None ->
+  b_leader x = None -> b_trans x = [] -> memN p (b_queued x) = false -> ins_refused repaired p x = false ->
+  lenN d = b_len x -> 0 < b_len x ->
+  exists s', run s [EIns p i b; EPiece p i (b_off x) (b_len x) true; EData p d] = Some s' /\
+             (exists x', find_block s' i b = Some x' /\ finished x' = true /\ b_queued x' = [] /\ b_leader x' = Some p) /\
+             piece s' i = splice (piece s i) (N.to_nat (b_off x)) d /\ get_cur s' p = None /\ pmark s' = None.
+Proof.
+  intros s i b x p d PM Fx Eb Hp Hc L Tr Hq Hr Ld Lpos.
+  destruct (honest_block_step_frame s i b x p d PM Fx Eb Hp Hc L Tr Hq Hr Ld Lpos) as (s' & R & A & B & C & D & _).
+  exists s'. auto.
+Qed.
+
+
+(* ---------- a whole piece: the honest peer serves every unfinished block, then the verdict ---------- *)
+Definition unfin (i : N) (x : block) : bool := (b_idx x =? i) && negb (finished x).
+(* the unfinished blocks of piece i, in BlockList order *)
+Definition ublocks (s : state) (i : N) : list block := filter (unfin i) (blocks s).
+(* what the piece contains after the blocks of l were written with the data [serve] gives for each block number *)
+Definition serve_all (serve : N -> list N) (l : list block) (pc : list N) : list N :=
+  fold_left (fun pc x => splice pc (N.to_nat (b_off x)) (serve (b_no x))) l pc.
+(* request, PIECE header, data for every block of l *)
+Definition serve_trace (p i : N) (serve : N -> list N) (l : list block) : list event :=
+  flat_map (fun x => [EIns p i (b_no x); EPiece p i (b_off x) (b_len x) true; EData p (serve (b_no x))]) l.
+(* Block::insert accepts p for x, nobody is sending x, and [serve] has data of the right length for it *)
+Definition requestable (p : N) (serve : N -> list N) (x : block) : Prop :=
+  b_leader x = None /\ b_trans x = [] /\ memN p (b_queued x) = false /\ ins_refused repaired p x = false /\
+  lenN (serve (b_no x)) = b_len x.
+
+Lemma run_app : forall a s b, run s (a ++ b) = match run s a with Some s1 => run s1 b | None => None end.
+Proof.
+  induction a as [|e a IH]; intros s b; simpl; [reflexivity|]. destruct (accept s e); [apply IH | reflexivity].
+Qed.
+
+Lemma is_block_true_key : forall i b y, is_block i b y = true -> key y = (i, b).
+Proof.
+  intros i b y E. unfold is_block in E. apply andb_true_iff in E. destruct E as [E1 E2].
+  apply N.eqb_eq in E1. apply N.eqb_eq in E2. unfold key. congruence.
+Qed.
+
+Lemma upd_block_id : forall l i b G, (forall y, In y l -> is_block i b y = false) -> upd_block l i b G = l.
+Proof.
+  induction l as [|a l IH]; intros i b G Hn; simpl; [reflexivity|].
+  rewrite (Hn a (or_introl eq_refl)). f_equal. apply IH. intros y Hy. apply Hn. right. exact Hy.
+Qed.
+
+Lemma filter_upd_block : forall l i b G x l', NoDup (map key l) -> filter (unfin i) l = x :: l' -> b_no x = b ->
+  (forall y, key (G y) = key y) -> finished (G x) = true -> filter (unfin i) (upd_block l i b G) = l'.
+Proof.
+  induction l as [|a l IH]; intros i b G x l' ND F Eb Hk Fin; simpl in F; [discriminate|].
+  subst b. inversion ND as [|k ks Hnin ND']; subst.
+  destruct (unfin i a) eqn:U.
+  - inversion F; subst a. clear F.
+    assert (Ix : b_idx x = i) by (unfold unfin in U; apply andb_true_iff in U; destruct U as [U _]; apply N.eqb_eq; exact U).
+    assert (B : is_block i (b_no x) x = true) by (unfold is_block; rewrite Ix, !N.eqb_refl; reflexivity).
+    simpl. rewrite B. simpl.
+    assert (U' : unfin i (G x) = false) by (unfold unfin; rewrite Fin; apply andb_false_r).
+    rewrite U'. rewrite upd_block_id; [reflexivity|].
+    intros y Hy. destruct (is_block i (b_no x) y) eqn:By; [|reflexivity]. exfalso. apply Hnin.
+    apply is_block_true_key in By. apply is_block_true_key in B. rewrite B, <- By. apply in_map. exact Hy.
+  - assert (Hx : In x l) by (assert (Hx : In x (filter (unfin i) l)) by (rewrite F; left; reflexivity); apply filter_In in Hx; apply Hx).
+    assert (Ux : unfin i x = true) by (assert (Hx' : In x (filter (unfin i) l)) by (rewrite F; left; reflexivity); apply filter_In in Hx'; apply Hx').
+    assert (Ix : b_idx x = i) by (unfold unfin in Ux; apply andb_true_iff in Ux; destruct Ux as [Ux _]; apply N.eqb_eq; exact Ux).
+    assert (Ba : is_block i (b_no x) a = false).
+    { destruct (is_block i (b_no x) a) eqn:Ba; [|reflexivity]. exfalso. apply Hnin. apply is_block_true_key in Ba.
+      assert (Kx : key x = (i, b_no x)) by (unfold key; congruence). rewrite Ba, <- Kx. apply in_map. exact Hx. }
+    simpl. rewrite Ba. simpl. rewrite U. eapply IH; eauto.
+Qed.
+
+Lemma ublocks_nil_all_finished : forall s i, ublocks s i = [] -> all_finished s i = true.
+Proof.
+  intros s i. unfold ublocks, all_finished. induction (blocks s) as [|a l IH]; simpl; [reflexivity|].
+  unfold unfin at 1. destruct (b_idx a =? i); simpl.
+  - destruct (finished a); simpl; [exact IH | discriminate].
+  - exact IH.
+Qed.
+
+Lemma honest_blocks_finish : forall l s i p serve,
+  NoDup (map key (blocks s)) -> pmark s = None -> In p (conns s) -> get_cur s p = None ->
+  ublocks s i = l -> (forall x, In x l -> requestable p serve x /\ b_off x / bs = b_no x /\ 0 < b_len x) ->
+  exists s', run s (serve_trace p i serve l) = Some s' /\ ublocks s' i = [] /\
+             piece s' i = serve_all serve l (piece s i) /\ pmark s' = None /\ get_cur s' p = None /\
+             conns s' = conns s /\ hashing s' = hashing s /\ attempts s' = attempts s /\ completed s' = completed s /\
+             done s' = done s /\ haves s' = haves s.
+Proof.
+  induction l as [|x l IH]; intros s i p serve ND PM Hp Hc U Rq.
+  - exists s. simpl. repeat split; auto.
+  - assert (Hx : In x (blocks s) /\ unfin i x = true).
+    { assert (Hx : In x (filter (unfin i) (blocks s))) by (unfold ublocks in U; rewrite U; left; reflexivity). apply filter_In in Hx. exact Hx. }
+    destruct Hx as [Hx Ux].
+    assert (Ix : b_idx x = i) by (unfold unfin in Ux; apply andb_true_iff in Ux; destruct Ux as [Ux _]; apply N.eqb_eq; exact Ux).
+    assert (Fx : find_block s i (b_no x) = Some x) by (unfold find_block; rewrite <- Ix; apply find_block_unique; assumption).
+    destruct (Rq x (or_introl eq_refl)) as ((L & Tr & Hq & Hr & Ld) & Eb & Lpos).
+    destruct (honest_block_step_frame s i (b_no x) x p (serve (b_no x)) PM Fx Eb Hp Hc L Tr Hq Hr Ld Lpos)
+      as (s1 & R1 & _ & Pc1 & C1 & PM1 & (G & Gk & _ & Gf & Bl1) & Cn1 & Hs1 & At1 & Cm1 & Dn1 & Hv1).
+    assert (U1 : ublocks s1 i = l).
+    { unfold ublocks. rewrite Bl1. eapply filter_upd_block; eauto. }
+    assert (ND1 : NoDup (map key (blocks s1))) by (rewrite Bl1, keys_upd_block; assumption).
+    assert (Hp1 : In p (conns s1)) by (rewrite Cn1; exact Hp).
+    destruct (IH s1 i p serve ND1 PM1 Hp1 C1 U1 (fun y Hy => Rq y (or_intror Hy)))
+      as (s' & R' & U' & Pc' & PM' & C' & Cn' & Hs' & At' & Cm' & Dn' & Hv').
+    exists s'. split.
+    + change (serve_trace p i serve (x :: l)) with
+        ([EIns p i (b_no x); EPiece p i (b_off x) (b_len x) true; EData p (serve (b_no x))] ++ serve_trace p i serve l).
+      rewrite run_app, R1. exact R'.
+    + repeat split; auto; try congruence.
+      rewrite Pc'. unfold serve_all. simpl. rewrite Pc1. reflexivity.
+Qed.
+
+Lemma serve_trace_length : forall p i serve l, length (serve_trace p i serve l) = (3 * length l)%nat.
+Proof. intros. unfold serve_trace. induction l as [|x l IH]; simpl; [reflexivity|]. simpl in IH. rewrite IH. lia. Qed.
+
 End Live.
+
+Section LivePiece.
+Variable H : list N -> list N.
+Variable expected : N -> list N.
+Variable npieces : N.
+Variable psize : N -> N.
+Variable repaired : bool.
+Hypothesis psize_pos : forall i, i < npieces -> 0 < psize i.
+Notation accept := (accept H expected npieces psize repaired).
+Notation run := (run H expected npieces psize repaired).
+
+Definition verdict_trace (i : N) : list event := [EHashQueued i; EHashDone i true; EMark i; EHave i].
+
+Lemma verdict_trace_facts : forall s i s', run s (verdict_trace i) = Some s' ->
+  pmark s' = None /\ done s' = done s /\ completed s' = i :: completed s.
+Proof.
+  intros s i s' R. unfold verdict_trace in R. simpl in R.
+  destruct (accept s (EHashQueued i)) as [s1|] eqn:A1; [|discriminate].
+  destruct (accept s1 (EHashDone i true)) as [s2|] eqn:A2; [|discriminate].
+  destruct (accept s2 (EMark i)) as [s3|] eqn:A3; [|discriminate].
+  destruct (accept s3 (EHave i)) as [s4|] eqn:A4; [|discriminate]. inversion R; subst s4; clear R.
+  unfold Model.accept in A1. destruct (pmark s) eqn:P0; [discriminate|].
+  destruct (listed s i && all_finished s i && negb (memN i (hashing s))); [|discriminate]. inversion A1; subst s1; clear A1.
+  unfold Model.accept in A2. cbn [pmark with_hashing] in A2. rewrite P0 in A2.
+  destruct (memN i (hashing (with_hashing s (i :: hashing s))) && _); [|discriminate]. inversion A2; subst s2; clear A2.
+  unfold Model.accept in A3. cbn [pmark with_pmark] in A3. rewrite N.eqb_refl in A3. inversion A3; subst s3; clear A3.
+  unfold Model.accept in A4. cbn [pmark] in A4.
+  match type of A4 with (if ?c then _ else _) = _ => destruct c; [|discriminate] end. inversion A4; subst s'; clear A4.
+  repeat split.
+Qed.
+
+(* A whole piece, with a computed number of steps: in any reachable state with no verdict in progress, if an idle
+   connected peer p can be asked for every unfinished block of the listed piece i (requestable) and the data it serves
+   makes the piece hash to the torrent's digest, then the 3 * (unfinished blocks) + 4 events
+   [request, PIECE header, data] per block, HashQueued, verdict, mark_completed, have-queue are accepted in sequence
+   and end with i completed and announced; if that was the last missing piece, "done" is enabled. *)
+Theorem honest_piece_completes : forall st0 c0 tr s i p serve,
+  init_ok H expected st0 c0 -> run (init st0 c0) tr = Some s ->
+  pmark s = None -> listed s i = true -> ~ In i (hashing s) -> In p (conns s) -> get_cur s p = None ->
+  (forall x, In x (ublocks s i) -> requestable repaired p serve x) ->
+  H (serve_all serve (ublocks s i) (piece s i)) = expected i ->
+  exists s', run s (serve_trace p i serve (ublocks s i) ++ verdict_trace i) = Some s' /\
+             length (serve_trace p i serve (ublocks s i) ++ verdict_trace i) = (3 * length (ublocks s i) + 4)%nat /\
+             In i (completed s') /\ In i (haves s') /\ piece s' i = serve_all serve (ublocks s i) (piece s i) /\
+             listed s' i = false /\
+             ((forall j, j < npieces -> j <> i -> In j (completed s)) -> done s = false -> accept s' EDone <> None).
+Proof.
+  intros st0 c0 tr s i p serve Hi R PM L NH Hp Hc Rq Hh.
+  destruct (JI_run H expected npieces psize repaired psize_pos tr _ _ (inv_init H expected npieces _ _ Hi) (J_init _ _) R)
+    as (_ & (ND & Lp & _)).
+  destruct (honest_blocks_finish H expected npieces psize repaired (ublocks s i) s i p serve ND PM Hp Hc eq_refl)
+    as (s1 & R1 & U1 & Pc1 & PM1 & C1 & Cn1 & Hs1 & At1 & Cm1 & Dn1 & Hv1).
+  { intros x Hx. split; [apply Rq; exact Hx|]. unfold ublocks in Hx. apply filter_In in Hx. destruct Hx as [Hx _]. split; [|apply Lp; exact Hx].
+    rewrite (no_off_run H expected npieces psize repaired st0 c0 tr s x R Hx). apply N.div_mul. pose proof bs_pos. lia. }
+  assert (Rs1 : run (init st0 c0) (tr ++ serve_trace p i serve (ublocks s i)) = Some s1) by (rewrite run_app, R; exact R1).
+  assert (L1 : listed s1 i = true) by (unfold listed; rewrite At1; exact L).
+  assert (NH1 : ~ In i (hashing s1)) by (rewrite Hs1; exact NH).
+  assert (Hh1 : H (piece s1 i) = expected i) by (rewrite Pc1; exact Hh).
+  destruct (finished_piece_completes H expected npieces psize repaired psize_pos st0 c0 _ s1 i Hi Rs1 PM1 L1
+              (ublocks_nil_all_finished s1 i U1) NH1 Hh1) as (s' & R' & Cm' & Hv' & Pc' & L').
+  exists s'. split; [rewrite run_app, R1; exact R'|]. split.
+  { rewrite app_length, serve_trace_length. reflexivity. }
+  repeat split; auto; try congruence.
+  intros All Dn. destruct (verdict_trace_facts s1 i s' R') as (PM' & Dn' & Cmp').
+  destruct (ProofsB.eventually_done_partial H expected npieces psize repaired s') as (_ & _ & _ & ED).
+  apply ED; [exact PM' | | congruence].
+  unfold all_completed. apply forallb_forall. intros k Hk. apply in_seq in Hk. apply memN_In. rewrite Cmp', Cm1.
+  destruct (N.eq_dec (N.of_nat k) i) as [E|E]; [left; auto | right; apply All; [lia | exact E]].
+Qed.
+
+End LivePiece.
+
+Section LiveReset.
+Variable H : list N -> list N.
+Variable expected : N -> list N.
+Variable npieces : N.
+Variable psize : N -> N.
+Hypothesis psize_pos : forall i, i < npieces -> 0 < psize i.
+Notation accept := (accept H expected npieces psize true).
+Notation run := (run H expected npieces psize true).
+
+(* With the repaired Block::insert the [requestable] hypothesis of honest_piece_completes is a theorem right after the
+   second failed verdict of a piece (BlockList::do_all_failed): whatever the hostile peers did before, an idle connected
+   peer that is not already queued on the blocks of the piece and serves data hashing to the torrent's digest completes
+   the piece in 3 * (blocks of the piece) + 4 steps. *)
+Theorem honest_piece_completes_after_reset : forall st0 c0 tr s i s1 p serve,
+  init_ok H expected st0 c0 -> run (init st0 c0) tr = Some s ->
+  accept s (EHashDone i false) = Some s1 -> attempt_of s i <> 0 ->
+  In p (conns s1) -> get_cur s1 p = None ->
+  (forall x, In x (ublocks s1 i) -> memN p (b_queued x) = false /\ lenN (serve (b_no x)) = b_len x) ->
+  H (serve_all serve (ublocks s1 i) (piece s1 i)) = expected i ->
+  exists s', run s1 (serve_trace p i serve (ublocks s1 i) ++ verdict_trace i) = Some s' /\
+             length (serve_trace p i serve (ublocks s1 i) ++ verdict_trace i) = (3 * length (ublocks s1 i) + 4)%nat /\
+             In i (completed s') /\ In i (haves s') /\ piece s' i = serve_all serve (ublocks s1 i) (piece s1 i) /\
+             listed s' i = false /\
+             ((forall j, j < npieces -> j <> i -> In j (completed s1)) -> done s1 = false -> accept s' EDone <> None).
+Proof.
+  intros st0 c0 tr s i s1 p serve Hi R A Hat Hp Hc Hq Hh.
+  assert (R1 : run (init st0 c0) (tr ++ [EHashDone i false]) = Some s1) by (rewrite run_app, R; simpl; rewrite A; reflexivity).
+  destruct (JI_run H expected npieces psize true psize_pos tr _ _ (inv_init H expected npieces _ _ Hi) (J_init _ _) R)
+    as ((_ & _ & _ & _ & I5 & _) & _).
+  destruct (JI_run H expected npieces psize true psize_pos _ _ _ (inv_init H expected npieces _ _ Hi) (J_init _ _) R1)
+    as (_ & (ND1 & _)).
+  assert (Facts : pmark s1 = None /\ listed s1 i = true /\ ~ In i (hashing s1)).
+  { pose proof A as A'. unfold Model.accept in A'. destruct (pmark s) eqn:PM; [discriminate|].
+    destruct (memN i (hashing s) && _) eqn:G; [|discriminate]. apply andb_true_iff in G. destruct G as [Mh _].
+    inversion A' as [E1]; clear A'.
+    destruct (hash_failed_spec (with_hashing s (removeN i (hashing s))) i) as (_ & _ & Hs & Pm & _ & _ & _ & Ls & _).
+    rewrite Pm, Hs, Ls. cbn [pmark hashing with_hashing]. split; [exact PM|]. split.
+    - apply memN_In in Mh. exact (I5 i Mh).
+    - intro Hin. unfold removeN in Hin. apply filter_In in Hin. destruct Hin as [_ Hin]. rewrite N.eqb_refl in Hin. discriminate. }
+  destruct Facts as (PM1 & L1 & NH1).
+  apply (honest_piece_completes H expected npieces psize true psize_pos st0 c0 _ s1 i p serve Hi R1 PM1 L1 NH1 Hp Hc); [|exact Hh].
+  intros x Hx. destruct (Hq x Hx) as [Q Ld]. unfold ublocks in Hx. apply filter_In in Hx. destruct Hx as [Hx Ux].
+  assert (Ix : b_idx x = i) by (unfold unfin in Ux; apply andb_true_iff in Ux; destruct Ux as [Ux _]; apply N.eqb_eq; exact Ux).
+  assert (Fx : find_block s1 i (b_no x) = Some x) by (unfold find_block; rewrite <- Ix; apply find_block_unique; assumption).
+  destruct (ProofsB.reset_block_insertable H expected npieces psize s i s1 A Hat (b_no x) x p Fx Hp Q) as (Tr & L & _).
+  unfold requestable. repeat split; auto. unfold ins_refused. rewrite Tr. reflexivity.
+Qed.
+
+End LiveReset.
+
+(* ---------- the hypotheses are satisfiable ---------- *)
+(* honest_piece_completes: a fresh piece of one block, one idle connected peer serving the original bytes *)
+Example ex_honest_piece_hyps :
+  exists s, run ex_H ex_expected 1 ex_psize true (init [[0; 0; 0]] []) [EConn 0; ENew 0] = Some s /\
+            pmark s = None /\ listed s 0 = true /\ ~ In 0 (hashing s) /\ In 0 (conns s) /\ get_cur s 0 = None /\
+            length (ublocks s 0) = 1%nat /\
+            (forall x, In x (ublocks s 0) -> requestable true 0 (fun _ => [1; 2; 3]) x) /\
+            ex_H (serve_all (fun _ => [1; 2; 3]) (ublocks s 0) (piece s 0)) = ex_expected 0.
+Proof.
+  eexists. split; [vm_compute; reflexivity|].
+  split; [reflexivity|]. split; [reflexivity|]. split; [intros []|]. split; [left; reflexivity|].
+  split; [reflexivity|]. split; [reflexivity|]. split; [|reflexivity].
+  intros x Hx. vm_compute in Hx. destruct Hx as [<-|[]]. unfold requestable. vm_compute. repeat split.
+Qed.
+
+(* honest_piece_completes_after_reset: the state of the request deadlock (eventually_done_refuted), but with the repaired
+   Block::insert: after the fourth failed verdict the honest peer 1 can be asked for both blocks again and completes the piece *)
+Definition toy_serve (b : N) : list N := if b =? 0 then blk 7 bs else [7].
+Definition ex_reset_check (s s1 : state) : bool :=
+  negb (attempt_of s 0 =? 0) && memN 1 (conns s1) && match get_cur s1 1 with None => true | Some _ => false end &&
+  Nat.eqb (length (ublocks s1 0)) 2 &&
+  forallb (fun x => negb (memN 1 (b_queued x)) && (lenN (toy_serve (b_no x)) =? b_len x)) (ublocks s1 0) &&
+  list_eqb (toyH (serve_all toy_serve (ublocks s1 0) (piece s1 0))) (toy_expected 0).
+Definition ex_reset_opt (r : option state) (acc : state -> option state) : bool :=
+  match r with
+  | Some s => match acc s with Some s1 => ex_reset_check s s1 | None => false end
+  | None => false
+  end.
+Lemma ex_reset_opt_sound : forall r acc, ex_reset_opt r acc = true ->
+  exists s s1, r = Some s /\ acc s = Some s1 /\ attempt_of s 0 <> 0 /\
+               In 1 (conns s1) /\ get_cur s1 1 = None /\ length (ublocks s1 0) = 2%nat /\
+               (forall x, In x (ublocks s1 0) -> memN 1 (b_queued x) = false /\ lenN (toy_serve (b_no x)) = b_len x) /\
+               toyH (serve_all toy_serve (ublocks s1 0) (piece s1 0)) = toy_expected 0.
+Proof.
+  intros r acc K. unfold ex_reset_opt in K. destruct r as [s|]; [|discriminate].
+  destruct (acc s) as [s1|] eqn:A; [|discriminate].
+  exists s, s1. split; [reflexivity|]. split; [exact A|]. unfold ex_reset_check in K.
+  repeat (apply andb_true_iff in K; destruct K as [K ?K]).
+  split; [apply N.eqb_neq; apply negb_true_iff; exact K|].
+  split; [apply memN_In; assumption|].
+  split; [destruct (get_cur s1 1); [discriminate | reflexivity]|].
+  split; [apply PeanoNat.Nat.eqb_eq; assumption|].
+  split; [|apply list_eqb_eq; assumption].
+  intros x Hx. match goal with F : forallb _ _ = true |- _ => rewrite forallb_forall in F; specialize (F x Hx); apply andb_true_iff in F; destruct F as [F1 F2] end.
+  split; [apply negb_true_iff; exact F1 | apply N.eqb_eq; exact F2].
+Qed.
+Lemma ex_reset_ok_true :
+  ex_reset_opt (run toyH toy_expected 1 toy_psize true toy_init (removelast toy_trace))
+               (fun s => accept toyH toy_expected 1 toy_psize true s (EHashDone 0 false)) = true.
+Proof. vm_compute. reflexivity. Qed.
+Example ex_after_reset_hyps :
+  exists s s1, run toyH toy_expected 1 toy_psize true toy_init (removelast toy_trace) = Some s /\
+               accept toyH toy_expected 1 toy_psize true s (EHashDone 0 false) = Some s1 /\ attempt_of s 0 <> 0 /\
+               In 1 (conns s1) /\ get_cur s1 1 = None /\ length (ublocks s1 0) = 2%nat /\
+               (forall x, In x (ublocks s1 0) -> memN 1 (b_queued x) = false /\ lenN (toy_serve (b_no x)) = b_len x) /\
+               toyH (serve_all toy_serve (ublocks s1 0) (piece s1 0)) = toy_expected 0.
+Proof. exact (ex_reset_opt_sound _ _ ex_reset_ok_true). Qed.
